@@ -633,10 +633,41 @@ def gt_formula(ctx: Ctx) -> RuleResult:
             if isinstance(tg, ast.Subscript) and table_of(tg.value) is not None:
                 writes.append((n, table_of(tg.value), tg.slice))
     # T.update({key: value for key in it}): one write per key, all values computed before any of them is stored
+    import copy as _copy
+
+    def _as_dictcomp(e: ast.AST) -> Optional[ast.DictComp]:
+        """The dict comprehension an update argument stands for: itself, or the single definition of a local; a comprehension over
+        `OWN.items()` with target (k, v) is read with v replaced by OWN[k]."""
+        if isinstance(e, ast.Name):
+            ds = [d for d in iter_own_nodes(fn) if isinstance(d, (ast.Assign, ast.AnnAssign)) and dotted(d.targets[0] if isinstance(d, ast.Assign) else d.target) == e.id]
+            e = ds[0].value if len(ds) == 1 and ds[0].value is not None else e
+        if not (isinstance(e, ast.DictComp) and len(e.generators) == 1):
+            return None
+        g0 = e.generators[0]
+        if isinstance(g0.target, ast.Tuple) and len(g0.target.elts) == 2 and all(isinstance(t_, ast.Name) for t_ in g0.target.elts) \
+                and isinstance(g0.iter, ast.Call) and isinstance(g0.iter.func, ast.Attribute) and g0.iter.func.attr == "items" and not g0.iter.args:
+            kv, vv = g0.target.elts[0].id, g0.target.elts[1].id
+            src = g0.iter.func.value
+
+            class _S(ast.NodeTransformer):
+                def visit_Name(self, n_):
+                    if n_.id == vv and isinstance(n_.ctx, ast.Load):
+                        return ast.Subscript(value=_copy.deepcopy(src), slice=ast.Name(id=kv, ctx=ast.Load()), ctx=ast.Load())
+                    return n_
+
+            e2 = _copy.deepcopy(e)
+            e2.value = _S().visit(e2.value)
+            e2.key = _S().visit(e2.key)
+            e2.generators[0].target = ast.Name(id=kv, ctx=ast.Store())
+            e2.generators[0].iter = _copy.deepcopy(src)
+            ast.fix_missing_locations(e2)
+            return e2
+        return e
+
     for n in iter_own_nodes(fn):
         if isinstance(n, ast.Call) and isinstance(n.func, ast.Attribute) and n.func.attr == "update" and table_of(n.func.value) is not None \
-                and len(n.args) == 1 and isinstance(n.args[0], ast.DictComp) and len(n.args[0].generators) == 1:
-            dc = n.args[0]
+                and len(n.args) == 1 and _as_dictcomp(n.args[0]) is not None:
+            dc = _as_dictcomp(n.args[0])
             pseudo = ast.copy_location(ast.Assign(targets=[ast.Subscript(value=n.func.value, slice=dc.key, ctx=ast.Store())], value=dc.value), n)
             ast.fix_missing_locations(pseudo)
             writes.append((pseudo, table_of(n.func.value), dc.key))
